@@ -84,6 +84,46 @@ fn split_pieces(text: &str) -> Option<Vec<&str>> {
     let re = format!("{}{}{}", TEXT_PREFIX, pieces.join(","), TEXT_SUFFIX);
     if re == text { Some(pieces) } else { None }
 }
+/// static dictionary coding of the emitted JSON (again lossless and verified here; decoded by Corr.v:
+/// expand): frequent substrings are replaced by single private-use code points U+E000+k.  A text that
+/// itself contains a code point of that range is carried uncompressed.
+const DICT: &[&str] = &[
+    "{\"kind\":\"OperationDefinition\",\"operation\":\"", "{\"kind\":\"VariableDefinition\",\"variable\":",
+    "{\"kind\":\"SelectionSet\",\"selections\":[", "{\"kind\":\"FragmentDefinition\",\"name\":",
+    "{\"kind\":\"FragmentSpread\",\"name\":", "{\"kind\":\"BooleanValue\",\"value\":", "{\"kind\":\"ObjectValue\",\"fields\":[",
+    "{\"kind\":\"StringValue\",\"value\":", "{\"kind\":\"ObjectField\",\"name\":", "{\"kind\":\"ListValue\",\"values\":[",
+    "{\"kind\":\"FloatValue\",\"value\":", "{\"kind\":\"NonNullType\",\"type\":", "{\"kind\":\"EnumValue\",\"value\":",
+    "{\"kind\":\"NamedType\",\"name\":", "{\"kind\":\"Directive\",\"name\":", "{\"kind\":\"IntValue\",\"value\":",
+    "{\"kind\":\"ListType\",\"type\":", "{\"kind\":\"Argument\",\"name\":", "{\"kind\":\"Variable\",\"name\":",
+    "{\"kind\":\"InlineFragment\",", "{\"kind\":\"Name\",\"value\":\"", ",\"variableDefinitions\":[", "{\"kind\":\"Field\",\"name\":",
+    "{\"kind\":\"NullValue\"}", "\"typeCondition\":", ",\"selectionSet\":", ",\"defaultValue\":", ",\"directives\":[", ",\"arguments\":[",
+    ",\"alias\":", ",\"value\":", ",\"name\":", ",\"type\":", "\"}}", "\"},", "]}", "}}", "],", "\"}",
+];
+const DICT_BASE: u32 = 0xE000;
+fn dict_encode(text: &str) -> Option<String> {
+    if text.chars().any(|c| (DICT_BASE..DICT_BASE + 256).contains(&(c as u32))) { return None; }
+    let mut out = String::new();
+    let mut rest = text;
+    'outer: while !rest.is_empty() {
+        for (k, d) in DICT.iter().enumerate() {
+            if rest.starts_with(d) { out.push(char::from_u32(DICT_BASE + k as u32).unwrap()); rest = &rest[d.len()..]; continue 'outer; }
+        }
+        let c = rest.chars().next().unwrap();
+        out.push(c); rest = &rest[c.len_utf8()..];
+    }
+    // verify
+    let mut back = String::new();
+    for c in out.chars() { let u = c as u32; if (DICT_BASE..DICT_BASE + DICT.len() as u32).contains(&u) { back.push_str(DICT[(u - DICT_BASE) as usize]); } else { back.push(c); } }
+    if back == text { Some(out) } else { None }
+}
+fn coq_dict_def() -> String {
+    format!("Definition dict_ : list str := {}.", coq_list(DICT, |d| coq_str(d)))
+}
+/// a piece as a Coq term of type `ztext`
+fn coq_ztext(s: &str) -> String {
+    match dict_encode(s) { Some(z) => format!("(Z_ {})", coq_text(&z)), None => format!("(R_ {})", coq_text(s)) }
+}
+
 #[derive(Default)]
 struct Table { pieces: Vec<String>, index: HashMap<String, usize> }
 impl Table {
@@ -95,7 +135,7 @@ impl Table {
                 }).collect();
                 format!("(TPieces {})", coq_list(&idx, |i| coq_n(*i as u64)))
             }
-            None => format!("(TRaw {})", coq_text(text)),
+            None => format!("(TRaw {})", coq_ztext(text)),
         }
     }
     fn outcome(&mut self, o: &Outcome) -> String {
@@ -554,11 +594,11 @@ impl<'a> Ctx<'a> {
         let mut classes: Vec<&str> = vec![];
         if accepted && js.is_err() { classes.push("accepted-document-unspread-fragment-undefined-spread-panic"); }
         let emitted: usize = js.as_ref().map(|v| v.iter().map(|s| s.len()).sum()).unwrap_or(0);
-        if whole.len() > 40_000 || emitted > 400_000 { self.bump("skipped_too_large_for_coqc"); return; }
+        if whole.len() > 24_000 || emitted > 300_000 { self.bump("skipped_too_large_for_coqc"); return; }
         let mut table = Table::default();
         let (js_t, ts_t, whole_t) = (table.outcome(&js), ts.as_ref().map(|o| table.outcome(o)), table.text(&whole));
-        let term = format!("CDoc {} {} {} {} {} {} {}", coq_bool(accepted), strip_positions(&ast_coq::opdoc(doc)),
-            coq_list(&table.pieces, |p| coq_text(p)), js_t,
+        let term = format!("CDoc {} {} dict_ {} {} {} {} {}", coq_bool(accepted), strip_positions(&ast_coq::opdoc(doc)),
+            coq_list(&table.pieces, |p| coq_ztext(p)), js_t,
             coq_opt(&ts_t, |s| s.clone()), whole_t, coq_list(&names, |ns| coq_list(ns, |n| coq_str(n))));
         let short = |o: &Outcome| match o { Ok(ts) => json!({"ok": ts}), Err(m) => json!({"panic": m}) };
         self.cases.push(term, json!({"stream": stream, "document": text, "ast_edited": edited, "accepted_by_check": accepted,
@@ -601,7 +641,7 @@ fn main() {
     assert!(check_schema(&syn_tsdoc).is_empty(), "fixed schema is valid");
     let syn_schema = to_type_system(&syn_tsdoc);
     let mut cx = Ctx {
-        cases: Cases::new("From V Require Import Base.Util Gql.Ast C12.Model C12.Spec C12.Corr.", "case", "agree", "holds", 40),
+        cases: Cases::new(&format!("From V Require Import Base.Util Gql.Ast C12.Model C12.Spec C12.Corr.\n{}", coq_dict_def()), "case", "agree", "holds", 20),
         distinct: HashSet::new(), nontrivial: HashSet::new(), stats: BTreeMap::new(), direct_failures: vec![],
         syn_schema: &syn_schema, cfg: Config::default(),
     };
@@ -626,8 +666,8 @@ fn main() {
     if thorough { for t in exhaustive_graphs(2) { cx.push_text("exhaustive-graphs-2", t, true); } }
 
     // 2. documents from the shared generators (spec-valid, accepted by check), all value kinds and directives
-    let n_schemas = if thorough { 300 } else { 40 };
-    let per_schema = if thorough { 8 } else { 5 };
+    let n_schemas = if thorough { 300 } else { 30 };
+    let per_schema = if thorough { 8 } else { 4 };
     for _ in 0..n_schemas {
         let s = gen_schema(&mut rng, &SchemaCfg::default());
         let sdl = leak(s.render());
@@ -647,7 +687,7 @@ fn main() {
     }
 
     // 3. synthetic spread graphs with rich values over the fixed schema
-    let n_syn = if thorough { 6000 } else { 500 };
+    let n_syn = if thorough { 6000 } else { 320 };
     for i in 0..n_syn {
         let cfg = SynCfg {
             n_frags: rng.range(0, 6),
@@ -664,7 +704,7 @@ fn main() {
     }
 
     // 4. AST shapes the parser never produces (empty selection sets, Some(empty arguments), Some(empty variables))
-    let n_edit = if thorough { 1500 } else { 150 };
+    let n_edit = if thorough { 1500 } else { 100 };
     let mut n_edits = 0u64;
     for _ in 0..n_edit {
         let cfg = SynCfg { n_frags: rng.range(0, 4), cyclic: false, undefined: false, duplicate: false, typed: true, spread_bias: 2 };
@@ -678,7 +718,7 @@ fn main() {
     cx.add("ast_edits_applied", n_edits);
 
     // 5. imported fragments: main file + a library file, resolved by the real resolve_operation_imports
-    let n_imp = if thorough { 400 } else { 60 };
+    let n_imp = if thorough { 400 } else { 40 };
     for _ in 0..n_imp {
         let cfg = SynCfg { n_frags: rng.range(1, 4), cyclic: false, undefined: false, duplicate: false, typed: true, spread_bias: 4 };
         // library: fragments F0..; main: query spreading some of them + a local fragment L spreading an imported one
